@@ -1,6 +1,11 @@
 package ed25519
 
 import (
+	"errors"
+	"sync/atomic"
+	"sync"
+	"runtime/debug"
+	"runtime"
 	"bytes"
 	"fmt"
 	"io"
@@ -388,6 +393,7 @@ func jobC17(c *rt.Ctx) {
 	// (5) valid chunks after rejected chunks of the same call
 	jobC17Mixed(c)
 	jobC17DenseLen(c)
+	jobC17Parallel(c)
 }
 
 func limbBoundaryValues() []*big.Int {
@@ -627,6 +633,138 @@ func jobC17DenseLen(c *rt.Ctx) {
 			}
 		}
 	}
+}
+
+// jobC17Parallel: histories followed by REAL parallelism. After each kind of refused / failing call
+// (entropy source fails at once, fails in the second chunk, over-long context, mismatched counts) - and
+// after none - two goroutines verify 1536 valid signatures each at the same time (they meet inside
+// their first entropy read); every chunk of both must be accepted by the batch equation itself. Scratch
+// objects that a failed call hands back twice, or that two calls come to share, garble the scalars
+// and points of a valid chunk: the equation fails and the chunk falls back.
+func jobC17Parallel(c *rt.Ctx) {
+	c.Require("parallel/no-fallback")
+	type pre struct {
+		name string
+		run  func(es []triple)
+	}
+	pres := []pre{
+		{"none", func([]triple) {}},
+		{"entropy-fails-at-once", func(es []triple) { implBatchReader(es[:8], vPure, false, &failAfterReader{n: 0}) }},
+		{"entropy-fails-in-second-chunk", func(es []triple) { implBatchReader(es[:132], vPure, false, &failAfterReader{n: 1024}) }},
+		{"context-too-long", func(es []triple) {
+			implBatchReader(es[:8], variantSpec{ref.Ctx, strings.Repeat("x", 256)}, false, rt.NewRng(1, "p"))
+		}},
+		{"entropy-fails-twice", func(es []triple) {
+			implBatchReader(es[:8], vPure, false, &failAfterReader{n: 0})
+			implBatchReader(es[:70], vPure, true, &failAfterReader{n: 0})
+		}},
+	}
+	for pi, p := range pres {
+		for rep := 0; rep < 2; rep++ {
+			if !c.Take() {
+				continue
+			}
+			c.Distinct(fmt.Sprintf("parallel %d %d", pi, rep), true)
+			es := fillers(vPure, 200)
+			var big [2][]triple
+			for g := 0; g < 2; g++ {
+				for i := 0; i < 1536; i++ {
+					big[g] = append(big[g], es[(i*7+g*3)%200])
+				}
+			}
+			old := runtime.GOMAXPROCS(4)
+			gc := debug.SetGCPercent(-1) // pooled scratch objects survive only without collections
+			p.run(es)
+			var fallbacks int64
+			verifOnFallback = func(off, bs int) { atomic.AddInt64(&fallbacks, 1) }
+			meet := make(chan struct{})
+			var arrived int32
+			type res struct {
+				all   bool
+				valid []bool
+				err   error
+				pv    interface{}
+			}
+			var out [2]res
+			var wg sync.WaitGroup
+			for g := 0; g < 2; g++ {
+				wg.Add(1)
+				go func(g int) {
+					defer wg.Done()
+					pubs := make([]PublicKey, len(big[g]))
+					msgs := make([][]byte, len(big[g]))
+					sigs := make([][]byte, len(big[g]))
+					for i, e := range big[g] {
+						pubs[i], msgs[i], sigs[i] = e.key, e.msg, e.sig
+					}
+					rd := &meetReader{r: rt.NewRng(int64(g)+9, "par"), meet: meet, arrived: &arrived}
+					defer func() {
+						if r := recover(); r != nil {
+							out[g].pv = r
+						}
+					}()
+					out[g].all, out[g].valid, out[g].err = VerifyBatch(rd, pubs, msgs, sigs, &Options{})
+				}(g)
+			}
+			wg.Wait()
+			verifOnFallback = nil
+			debug.SetGCPercent(gc)
+			runtime.GOMAXPROCS(old)
+			c.Step(2)
+			bad := ""
+			for g := 0; g < 2; g++ {
+				if out[g].pv != nil || out[g].err != nil || !out[g].all || len(out[g].valid) != 1536 {
+					bad = fmt.Sprintf("goroutine %d: all=%v err=%v panic=%v", g, out[g].all, out[g].err, out[g].pv)
+				}
+			}
+			d := map[string]interface{}{"before": p.name, "fallbacks": fallbacks}
+			if bad != "" {
+				c.Violation("C17 parallel valid batch rejected", fmt.Sprintf("after [%s], two all-valid batches of 1536 verified at the same time: %s", p.name, bad), d)
+			} else if fallbacks != 0 {
+				c.Class("parallel/fallback")
+				c.Violation("C17 parallel fallback used", fmt.Sprintf("after [%s], two all-valid batches of 1536 verified at the same time needed the per-signature fallback for %d chunks", p.name, fallbacks), d)
+			} else {
+				c.Class("parallel/no-fallback")
+			}
+		}
+	}
+}
+
+// failAfterReader delivers n bytes, then fails.
+type failAfterReader struct{ n int }
+
+func (f *failAfterReader) Read(p []byte) (int, error) {
+	if f.n <= 0 {
+		return 0, errors.New("entropy source failed")
+	}
+	k := len(p)
+	if k > f.n {
+		k = f.n
+	}
+	for i := 0; i < k; i++ {
+		p[i] = byte(f.n*31 + i)
+	}
+	f.n -= k
+	return k, nil
+}
+
+// meetReader makes the two goroutines meet inside their first Read, then delivers.
+type meetReader struct {
+	r       io.Reader
+	meet    chan struct{}
+	arrived *int32
+	met     bool
+}
+
+func (m *meetReader) Read(p []byte) (int, error) {
+	if !m.met {
+		m.met = true
+		if atomic.AddInt32(m.arrived, 1) == 2 {
+			close(m.meet)
+		}
+		<-m.meet
+	}
+	return m.r.Read(p)
 }
 
 // jobC17Mixed: a valid chunk is accepted by the batch equation itself whatever the previous chunk of
